@@ -46,6 +46,14 @@ CLAIMED = {
             "typed subsets, refusal before mutation, one store per view); histories are covered by induction over single operations.",
             "Trusts CPython's ast and the extractor's resolution of self.<registry> receivers; does not execute edit histories; "
             "dynamic attribute access other than the __subsets/getattr idiom is not resolved.", "DESIGN.md §4 C14"),
+    "C15": ("cross-checking sibling implementations: Python opcode enum vs C++ const table, per-opcode agreement of the C++ stack-machine branch "
+            "(arity, pop order, result) with get_rpn's emission order (abstract interpretation over leaf/non-leaf cases) and the Python operation; "
+            "sympy differentiation of each operator's operation vs its diff_down rule; map-ownership and increment/record/decrement pairing rules",
+            "Decides that the Python front end and the C++ evaluator agree on opcodes, operand order and semantics for all 18 operators, that every "
+            "reverse-mode derivative rule is der * d(op)/d(operand), that reflected operators keep operand order, that leaf reference counting is "
+            "paired and uses the right map, and that attribute deletion un-registers what attribute assignment registered.",
+            "Does not decide floating-point behaviour, the SWIG wrapper, memory safety, or the CSR index arithmetic of set_structure / "
+            "evaluate_csr_jacobian (shape not robustly extractable: dropped rule R-C15-6). C++ is read by a small tokenizer (sa/cxx.py).", "DESIGN.md §4 C15"),
     "C17": ("partial evaluation (constant folding with the value as a linear form k*x+c) of the conversion branch tree for every "
             "(parameter, flow unit, darcy_weisbach, mass unit, reaction order) configuration; table comparison with physical definitions",
             "Exhaustive over the finite configuration space: every configuration is linear, k_to*k_from = 1, and k_to equals the reference "
